@@ -187,6 +187,20 @@ func c04R3(a *A, r *Roles, ar *Arms) {
 			a.viol(rule, fmt.Sprintf("pos-writer@%s#%d", s.Fn.Name(), n["other"]), pos, "the position cell is written by %s", fnName(s.Fn))
 		}
 	}
+	// a decoded rotation always moves the cell (otherwise the kept position names the old file)
+	rot := map[*ssa.BasicBlock]bool{}
+	for _, s := range r.Pos.stores() {
+		if s.Fn == r.Parser && ar.of[s.Store.Block()]["IsRotate"] && s.Field != "Offset" {
+			rot[s.Store.Block()] = true
+		}
+	}
+	for _, p := range ar.Preds {
+		if p.Name == "IsRotate" {
+			esc := reachesAvoiding(p.Entry, r.LoopHead, func(b *ssa.BasicBlock) bool { return rot[b] }, nil) && !rot[p.Entry]
+			a.check(!esc, rule, "pos-rotation@parser", a.W.posOf(p.Entry.Instrs[0]), "every decoded rotation moves the position cell to the new file",
+				"a rotate event can pass without moving the position cell: after a failure in the new file the kept resume position is (old file, new-file offset)")
+		}
+	}
 	for i, u := range r.Pos.otherUses() {
 		a.viol(rule, fmt.Sprintf("pos-escape#%d", i+1), a.W.posOf(u), "the address of the position cell escapes (%T); writers can no longer be enumerated", u)
 	}
